@@ -24,8 +24,8 @@ int const k_taglen = 48;
 struct NodeCfg
 {
 	std::vector<ip::address> ips;
-	int nat = 0; // 0 none, 1 own external address, 2 shared external address
-	ip::address ext; // external v4 address when natted
+	int nat = 0; // 0 none, 1 own external address, 2 shared external address, 3 two chained NATs (inner, then own external)
+	ip::address ext; // external v4 address when natted: that of the last NAT on the route
 };
 
 inline uint8_t tag_byte(int conn_id, int side, int i)
@@ -151,8 +151,8 @@ struct Conn
 			if (!v6only) n.ips.push_back(ip::make_address_v4("10.0." + std::to_string(k) + ".1"));
 			if (!v6only && plan.c(q + "dual")) n.ips.push_back(ip::make_address_v4("10.0." + std::to_string(k) + ".2"));
 			if (v6only || plan.c(q + "v6")) n.ips.push_back(ip::make_address_v6("fd00::" + std::to_string(k + 1) + ":1"));
-			n.nat = v6only ? 0 : int(plan.c(q + "nat") % 3);
-			if (n.nat == 1) n.ext = ip::make_address_v4("10.99." + std::to_string(k) + ".1");
+			n.nat = v6only ? 0 : int(plan.c(q + "nat") % 4);
+			if (n.nat == 1 || n.nat == 3) n.ext = ip::make_address_v4("10.99." + std::to_string(k) + ".1");
 			if (n.nat == 2) n.ext = ip::make_address_v4("10.99.99.1");
 			for (auto const& a : n.ips)
 			{
@@ -160,6 +160,12 @@ struct Conn
 				out.push_back(queue_hop(0, plan.c(q + "olat"), 0));
 				if (n.nat != 0 && a.is_v4())
 				{
+					if (n.nat == 3)
+					{
+						// an inner (carrier-grade style) NAT first
+						if (nat_enabled) out.push_back(nat_hop("100.64." + std::to_string(k) + ".7"));
+						else { HopSpec h; h.kind = HopSpec::Pass; out.push_back(h); }
+					}
 					if (nat_enabled) out.push_back(nat_hop(n.ext.to_string()));
 					else { HopSpec h; h.kind = HopSpec::Pass; out.push_back(h); } // synchronous pass-through in its place
 				}
@@ -680,6 +686,7 @@ struct ConnEngine : Engine
 			p.cfg[q + "v6only"] = rng.chance(0.05) ? 1 : 0;
 			int nat = 0;
 			if (rng.chance(c13 ? 0.6 : 0.25)) nat = shared_nat ? 2 : 1;
+			if (nat == 1 && rng.chance(0.3)) nat = 3;
 			p.cfg[q + "nat"] = nat;
 			p.cfg[q + "olat"] = rng.pick(std::vector<int64_t>{0, 1000, 1000000, 5000000, 20000000});
 			p.cfg[q + "ilat"] = rng.pick(std::vector<int64_t>{0, 1000, 1000000, 5000000, 20000000});
